@@ -2,6 +2,7 @@ package main
 
 import (
 	"fmt"
+	"go/token"
 	"go/types"
 	"math/big"
 	"sort"
@@ -105,6 +106,13 @@ type Exec struct {
 	freshParts []string
 	callSiteHits map[string]int
 	extraModel []ModelVar
+	paramRootedCache map[*ssa.Function]bool
+	freshRefs map[string]bool
+	modActive bool
+	modAllowed []modLoc
+	dry0 bool
+	curFr *Frame
+	curPos token.Pos
 }
 
 type storedRef struct {
@@ -124,7 +132,7 @@ func newExec(P *Program, C *Contracts, fn *ssa.Function, opts *Options) *Exec {
 		declared: map[string]bool{}, universe: map[string]string{}, axiomsOn: map[string]bool{},
 		strLits: map[string]string{}, typeTags: map[string]int{}, notes: map[string]bool{},
 		trusted: map[string]bool{}, assumed: map[string]bool{}, inlined: map[string]bool{},
-		oblCount: map[string]int{}, initHeap: map[string]string{}, initVars: map[string]Val{}, callSiteHits: map[string]int{}}
+		oblCount: map[string]int{}, initHeap: map[string]string{}, initVars: map[string]Val{}, callSiteHits: map[string]int{}, paramRootedCache: map[*ssa.Function]bool{}, freshRefs: map[string]bool{}}
 	return ex
 }
 
@@ -304,6 +312,7 @@ func (ex *Exec) bumpAlloc(st *State) string {
 func (ex *Exec) newRef(st *State, hint string) string {
 	r := ex.def(hint, sInt, "(+ "+st.allocCtr+" 1)")
 	st.allocCtr = r
+	ex.freshRefs[r] = true
 	return r
 }
 
